@@ -36,6 +36,8 @@ MUTANTS = [
      "cmd": "/venv/bin/python /verif/selftest/neutral_rename.py ."},
     {"id": "neutral/rust-local-renames", "kind": "neutral", "props": RUST,
      "cmd": "/venv/bin/python /verif/selftest/neutral_rust_rename.py ."},
+    {"id": "neutral/rust-temporaries", "kind": "neutral", "props": RUST,
+     "cmd": "/venv/bin/python /verif/selftest/neutral_rust_temps.py ."},
 
     # --- targeted behaviour-preserving refactors around the rules added after seeding ---------------------------------
     {"id": "neutral/org-arg-temporary", "kind": "neutral", "props": ["C10"], "edits": [
